@@ -462,3 +462,53 @@ def rule_enumerate_positions(ctx):
                         {"adapters_before": before},
                     )
     ctx.floor("enumerate sites", n, 14)
+    # the same for `.position(..)`: a position found among the *enabled* (or otherwise filtered) elements is not a
+    # declaration position
+    sp_ = Spaces(ctx)
+    npos = 0
+    for rel, f in sorted(ctx.files.items()):
+        if not rel.startswith("impl/src/"):
+            continue
+        for fn in A.functions(f):
+            for mc, ps in A.find(fn.block, "Expr::MethodCall"):
+                if mc["method"]["sym"] not in ("position", "rposition"):
+                    continue
+                npos += 1
+                root, ops = A.chain(mc["receiver"])
+                before = [o[1] for o in ops if o[0] == "m"]
+                dropped = [m for m in before if m in DROPPING]
+                space = None
+                try:
+                    space = sp_.collection(fn, mc["receiver"])
+                except Exception:
+                    space = None
+                # what the found position feeds
+                positional = None
+                for p_ in reversed(ps):
+                    k_ = A.kind(p_)
+                    if k_ == "Expr::Call" and re.search(r"(Index::from|Member::Unnamed|Index::new)$", A.path_str(p_["func"]) or ""):
+                        positional = A.path_str(p_["func"])
+                        break
+                    if k_ == "Expr::Macro" and A.path_last(p_["mac"]["path"]) == "format_ident":
+                        positional = "format_ident!"
+                        break
+                    if k_ == "Stmt::Local":
+                        names = A.pat_idents(p_["pat"])
+                        if len(names) == 1:
+                            body = A.fn_text(fn)
+                            if any(re.search(pt % {"i": re.escape(names[0])}, body) for pt in POSITIONAL_USE[:5]):
+                                positional = f"`{names[0]}` used as a field position"
+                        break
+                    if k_ in ("Expr::Closure", "Item::Fn", "ImplItem::Fn"):
+                        break
+                recv = A.render(mc["receiver"])
+                key = f"{rel}::{fn.qual}:position:{recv[:60]}"
+                ctx.instance(key, sample={"fn": f"{rel}::{fn.qual}", "over": recv[:100], "space": space, "adapters_before": before, "positional_use": positional})
+                if positional and (dropped or space == EN):
+                    ctx.report(
+                        key,
+                        ctx.where(f, mc["method"]),
+                        f"`{fn.qual}` takes the position of an element of `{recv[:100]}` - a sequence of the *{'enabled' if space == EN else 'filtered'}* fields only - and uses it as a declaration position ({positional}): with an ignored / skipped field before the selected one the generated code addresses the wrong field (`self.0` instead of `self.1`)",
+                        {"adapters_before": before},
+                    )
+    ctx.note(f"{npos} `.position(..)` sites")
